@@ -60,9 +60,11 @@ class C03(Prop):
     trusted = ["Version parsing/rendering (C02) and the version order (C01) as modelled in PkgModel/Version.lean",
                "str.isdigit / str.lower on the ASCII strings that reach _pad_version / _compare_arbitrary"]
     partial = [
-        "S.parseSpec (and V.scan) are hand-written scanners mirroring Specifier._regex / Version._regex; that they accept "
-        "and capture what the regex engine does is tied by the spec.parse / spec.clause correspondence (spelled, "
-        "malformed and white-space-damaged clauses) and by C12's language theorems, not by a theorem here",
+        "S.parseSpec (and V.scan) are hand-written scanners mirroring Specifier._regex / Version._regex; that they "
+        "*accept* exactly what the regexes regenerated from the source accept is proved for every string "
+        "(C12.parseSpec_accepts_iff_source_regex, C12.scan_accepts_iff_source_regex); that they *capture* what the "
+        "regex engine captures (operator and stripped version text) is tied by the spec.parse / spec.clause "
+        "correspondence (spelled, malformed and white-space-damaged clauses), not by a theorem",
         "str.isdigit / str.lower are modelled on ASCII (the strings reaching them are rendered versions)"]
     dist_limit = 250
     budget = {"quick": (30000, 30000), "thorough": (1000000, 500000)}
